@@ -143,6 +143,10 @@ class ForcePlatformsCalibrationDataBlock(Block):
                 next_channel = 0
             else:
                 next_channel = max(self._platformMap) + 1
+                if next_channel > 32767:  # must fit the on-disk int16
+                    next_channel = next(
+                        c for c in range(32768) if c not in self._platformMap
+                    )
             self._platformMap.append(next_channel)
         else:
             if channel in self._platformMap:
